@@ -33,6 +33,9 @@ def run(ck):
     # current position, one match is applied, none / several are the two errors
     from . import c02 as _c02
     ck.run_rule(_c02.u6_unique_resolution)
+    # coordinate text is the squares' own text: the file / rank letter tables and Square's Display (C11's F4)
+    from .c11 import f4_squares
+    ck.run_rule(f4_squares)
 
 
 def piece_letters(ck):
